@@ -39,6 +39,29 @@ MULTIMAP = "MultiMap<String, String>"
 GROUPS = "[(String, Vec<String>)]"
 
 
+CHAR_RX = re.compile(r"'(?:\\.|[^\\'\n])'")
+
+
+def gff_tokenize(text, base):
+    """the tokenizer of rs2lean_cfbase.py plus `char` literals (`'x'`, `'\\''`; a lifetime `'a` has no closing quote)"""
+    toks, i, n = [], 0, len(text)
+    while i < n:
+        m = CHAR_RX.match(text, i)
+        if m:
+            toks.append(cb.Tok("char", m.group(0), base + i))
+            i = m.end()
+            continue
+        m = cb.TOKEN_RX.match(text, i)
+        if not m:
+            raise Unsupported("cannot tokenise `%s`" % text[i:i + 12].split("\n")[0], base + i)
+        i = m.end()
+        if m.lastgroup == "ws":
+            continue
+        toks.append(cb.Tok(m.lastgroup, m.group(0), base + m.start()))
+    toks.append(cb.Tok("eof", "<end of function>", base + n))
+    return toks
+
+
 def str_bytes(tok_text, pos=None):
     """Rust string literal token → list of UTF-8 bytes"""
     if not (tok_text.startswith('"') and tok_text.endswith('"')):
@@ -83,7 +106,71 @@ class GffPX(PX):
                 args.append(self.expr())
             self.expect(")")
             return ("format", s.text, args, p.pos)
+        if p.kind == "char":
+            self.next()
+            body = p.text[1:-1]
+            esc = {"\\n": 10, "\\t": 9, "\\r": 13, "\\\\": 92, "\\'": 39, '\\"': 34, "\\0": 0}
+            if body in esc:
+                v = esc[body]
+            elif len(body) == 1:
+                v = ord(body)
+            else:
+                raise Unsupported("char literal %s" % p.text, p.pos)
+            return ("num", v, "char", p.pos)
+        if self.at("|") and not self.at("|", 1):
+            # closure with parameter types kept (`|s: &str| …`); the untyped form is parsed by the base class
+            save = self.i
+            self.next()
+            params, tys = [], []
+            while not self.at("|"):
+                params.append(self.pat())
+                if self.at(":"):
+                    self.next()
+                    tys.append(self.ty())
+                else:
+                    tys.append(None)
+                if self.at(","):
+                    self.next()
+            self.next()
+            if self.at("->"):
+                raise Unsupported("closure with a return type", self.peek().pos)
+            body = self.expr()
+            return ("closure", params, body, p.pos, tys)
+        if p.kind == "id" and p.text == "vec" and self.at("!", 1) and self.at("[", 2):
+            self.next()
+            self.next()
+            return PX.primary(self, nostruct)          # `vec![a, b]` = the array literal
         return PX.primary(self, nostruct)
+
+    def postfix(self, nostruct):
+        """as `PX.postfix`, plus `e?` (functions of the spec marked `result=True`)"""
+        e = self.primary(nostruct)
+        while True:
+            if self.at("."):
+                pos = self.next().pos
+                x = self.next()
+                if x.kind == "num":
+                    e = ("tidx", e, int(x.text), pos)
+                    continue
+                if x.kind != "id":
+                    raise Unsupported("`.%s`" % x.text, x.pos)
+                if self.at("::"):
+                    self.next()
+                    self.generic_args()
+                if self.at("("):
+                    e = ("mcall", e, x.text, self.args(), pos)
+                else:
+                    e = ("field", e, x.text, pos)
+            elif self.at("["):
+                pos = self.next().pos
+                i = self.expr()
+                self.expect("]")
+                e = ("index", e, i, pos)
+            elif self.at("?"):
+                pos = self.next().pos
+                e = ("try", e, pos)
+            else:
+                return e
 
     def pat(self):
         p = self.peek()
@@ -112,9 +199,33 @@ class GffPX(PX):
                 continue
             if self.at("return"):
                 raise Unsupported("`return` (dialect gff translates expression-bodied functions only)", self.peek().pos)
-            if self.peek().kind == "id" and self.peek().text in ("for", "while", "loop"):
+            if self.at("for"):
+                pos = self.next().pos
+                pt = self.pat()
+                self.expect("in")
+                it = self.expr(nostruct=True)
+                body = self.block()
+                if body[2] is not None:
+                    raise Unsupported("`for` body with a tail expression", pos)
+                stmts.append(("for", pt, body, it, pos))
+                continue
+            if self.peek().kind == "id" and self.peek().text in ("while", "loop"):
                 raise Unsupported("`%s` loop (dialect gff has no loops)" % self.peek().text, self.peek().pos)
             pos = self.peek().pos
+            if self.at("if") and not self.at("let", 1):
+                # `if c { stmts } [else { stmts }]` followed by more of the block: a statement (mutators)
+                save = self.i
+                self.next()
+                c = self.expr(nostruct=True)
+                a = self.block()
+                b = None
+                if self.at("else") and not self.at("if", 1):
+                    self.next()
+                    b = self.block()
+                if a[2] is None and (b is None or b[2] is None) and not self.at("else"):
+                    stmts.append(("ifstmt", c, a, b, pos))
+                    continue
+                self.i = save
             e = self.expr()
             if self.at("="):
                 self.next()
@@ -126,6 +237,15 @@ class GffPX(PX):
                 if e[0] == "mcall" and e[2] == "push" and len(e[3]) == 1:
                     self.next()
                     stmts.append(("push", e[1], None, e[3][0], pos))
+                    continue
+                if e[0] == "mcall" and e[2] == "insert" and len(e[3]) == 2 and e[1][0] == "path" and len(e[1][1]) == 1:
+                    self.next()
+                    stmts.append(("insert", e[1], e[3][0], e[3][1], pos))
+                    continue
+                if (e[0] == "mcall" and e[2] in ("sort", "sort_unstable", "sort_by", "sort_unstable_by", "sort_by_key", "sort_unstable_by_key")
+                        and e[1][0] == "path" and len(e[1][1]) == 1):
+                    self.next()
+                    stmts.append(("permute", e[1], None, None, pos))
                     continue
                 raise Unsupported("expression statement (dialect gff: `let`, `self.f = e;`, `self.f.push(e);` and a tail expression)", pos)
             if self.peek().kind == "op" and self.peek().text in ("+=", "-=", "*="):
@@ -143,6 +263,8 @@ class GffPX(PX):
 class GffTr(Tr):
     def lean_ty(self, t):
         t = t.strip()
+        if t in self.unit.get("types", {}):
+            return self.unit["types"][t]
         if t in STR_TYS:
             return "List Nat"
         if t == "char":
@@ -161,13 +283,83 @@ class GffTr(Tr):
         lines = []
         env = dict(env)
         for (kind, p, ty, e, pos) in b[1]:
+            if kind == "let" and e[0] == "closure" and p[0] == "pvar":
+                # a local function: `let f = |x: T| e;`
+                if len(e) < 5 or len(e[1]) != 1 or e[4][0] is None or e[1][0][0] != "pvar":
+                    raise Unsupported("local closure without one typed parameter", pos)
+                env2 = dict(env)
+                env2[e[1][0][1]] = e[4][0]
+                sub = []
+                before = self.monadic
+                c, t = self.expr(e[2], env2, sub)
+                if sub or self.monadic != before:
+                    raise Unsupported("local closure whose body has statements or can panic", pos)
+                lines.append("let %s := fun (%s : %s) => %s" % (lname(p[1]), lname(e[1][0][1]), self.lean_ty(e[4][0]), c))
+                env[p[1]] = "fn:%s" % t
+                continue
             if kind == "let":
                 code, t = self.expr(e, env, lines)
                 t = ty or t
                 lines.append("let %s := %s" % (self.pat_code(p, env, t), code))
                 continue
+            if kind == "insert":
+                v = p[1][0]
+                if env.get(v) != MULTIMAP or self.lean_ty(MULTIMAP) != "List (List Nat × List Nat)":
+                    raise Unsupported("`.insert(..)` on `%s` (only a local MultiMap read as its insertion sequence)" % v, pos)
+                kc, _ = self.expr(ty, env, lines)
+                vc, _ = self.expr(e, env, lines)
+                lines.append("let %s := %s ++ [(%s, %s)]" % (lname(v), lname(v), kc, vc))
+                continue
+            if kind == "for":
+                # `for pat in items { … }` over a list, the body updating one local accumulator = `List.foldl`
+                accs = sorted(set(mutated_locals(ty)))
+                if len(accs) != 1 or accs[0] not in env:
+                    raise Unsupported("`for` loop that updates %s (exactly one local accumulator is read)" % (accs or "nothing"), pos)
+                a = accs[0]
+                it, tit = self.expr(e, env, lines)
+                et = self.elem_ty(tit)
+                if et is None:
+                    raise Unsupported("`for` over a value of type %s" % tit, pos)
+                env2 = dict(env)
+                pc = self.pat_code(p, env2, et)
+                before = self.monadic
+                ls, _, _ = self.block(ty, env2, None)
+                if self.monadic != before or (self.mode_monadic and not getattr(self, "_probing", False)):
+                    raise Unsupported("`for` loop in a function that can panic", pos)
+                body = "\n" + "".join("    " + l.replace("\n", "\n    ") + "\n" for l in ls) + "    " + lname(a)
+                lines.append("let %s := List.foldl (fun %s %s => %s) %s %s" % (lname(a), lname(a), pc, body, lname(a), atom(it)))
+                continue
+            if kind == "permute":
+                # `xs.sort…(..)`: whatever the comparison, the slice afterwards is a permutation of the slice before
+                v = p[1][0]
+                if (v not in env or (self.elem_ty(env[v]) or "").replace(" ", "") != "(String,Vec<String>)"
+                        or "permGroups" not in (self.f.get("abs") or [])):
+                    raise Unsupported("sorting of `%s` (only a local list of key groups, in a function whose spec has `permGroups`)" % v, pos)
+                if "permGroups" not in self.used_abs:
+                    self.used_abs.append("permGroups")
+                lines.append("let %s := permGroups %s" % (lname(v), lname(v)))
+                continue
             if not self.f.get("mut_self"):
                 raise Unsupported("assignment in a function that is not declared a mutator of `self`", pos)
+            if kind == "ifstmt":
+                c, _ = self.expr(p, env, lines)
+                arms = []
+                for blk in (ty, e):
+                    if blk is None:
+                        arms.append("pure self" if self.mode_monadic else "self")
+                        continue
+                    ls, _, _ = self.block(blk, env, None)
+                    arms.append(self.render([l.replace("\n", "\n  ") for l in ls], "self", 2))
+                code = "(if %s then %s else %s)" % (c, atom_block(arms[0]), atom_block(arms[1]))
+                lines.append(("let self ← %s" if self.mode_monadic else "let self := %s") % code)
+                continue
+            if p[0] == "index" and self.self_field_place(p[1]) is not None:
+                fld = self.self_field_place(p[1])
+                i, _ = self.expr(p[2], env, lines)
+                code, t = self.expr(e, env, lines)
+                tmp = self.bind(lines, "Rs.setIdx self.%s %s %s" % (lname(fld), atom(i), atom(code)))
+                lines.append("let self := { self with %s := %s }" % (lname(fld), tmp))
+                continue
             fld = self.self_field_place(p)
             st = self.norm(self.f.get("self_ty"))
             if fld is None or st not in self.decls or fld not in dict(self.decls[st]["fields"]):
@@ -221,7 +413,82 @@ class GffTr(Tr):
             return c, "char"
         if k == "field" and self.self_field_place(e) == "inner" and self.f.get("inner"):
             return "inner", self.f["inner"]
+        if k == "index" and e[2][0] == "str":
+            c, t = self.expr(e[1], env, lines)
+            name = e[2][1][1:-1]
+            if t != "Captures" or name not in ("key", "value"):
+                raise Unsupported("`[%s]` on a value of type %s" % (e[2][1], t), e[3])
+            return atom(c) + (".1" if name == "key" else ".2"), "str"
+        if k == "try":
+            if not self.f.get("result"):
+                raise Unsupported("`?` in a function that is not declared `result`", e[2])
+            c, t = self.expr(e[1], env, lines)
+            m = re.match(r"^Result<(.*)>$", t or "")
+            if not m:
+                raise Unsupported("`?` on a value of type %s" % t, e[2])
+            return self.bind_try(lines, c), m.group(1)
+        if k == "path" and e[1] == ["true"]:
+            return "true", "bool"
+        if k == "path" and e[1] == ["false"]:
+            return "false", "bool"
         return Tr.expr(self, e, env, lines)
+
+    def bind_try(self, lines, code):
+        self._try = True
+        try:
+            return self.bind(lines, code)
+        finally:
+            self._try = False
+
+    def bind(self, lines, code):
+        if self.f.get("result") and not getattr(self, "_try", False):
+            raise Unsupported("an operation that can panic (`%s`) in a `result` function" % code.split()[0])
+        if not self.f.get("result") and getattr(self, "_try", False):
+            raise Unsupported("`?` outside a `result` function")
+        return Tr.bind(self, lines, code)
+
+    def call(self, e, env, lines):
+        path, args, pos = e[1], e[2], e[3]
+        key = "::".join(path)
+        if len(path) == 1 and str(env.get(key, "")).startswith("fn:") and len(args) == 1:
+            c, t = self.expr(args[0], env, lines)
+            return "%s %s" % (lname(key), atom(c)), env[key][3:]
+        if key == "MultiMap::new" and not args:
+            return "[]", MULTIMAP
+        if key == "Ok" and len(args) == 1 and self.f.get("result"):
+            c, t = self.expr(args[0], env, lines)
+            return c, t
+        if key == "Err" and len(args) == 1 and self.f.get("result"):
+            return self.bind_try(lines, "(throw () : Except Unit _)"), None          # the error value is no part of any property
+        if key == "u8::from_str" and len(args) == 1:
+            c, t = self.expr(args[0], env, lines)
+            if t not in STR_TYS:
+                raise Unsupported("`u8::from_str` on a value of type %s" % t, pos)
+            return "Rs.parseU8 %s" % atom(c), "Result<u8>"
+        if key == "Phase" and len(args) == 1 and self.unit.get("types", {}).get("Phase") == "Option Nat":
+            c, t = self.expr(args[0], env, lines)
+            return c, "Phase"
+        if key == "String::from_utf8" and len(args) == 1 and args[0][0] == "array" and len(args[0][1]) == 1:
+            c, t = self.expr(args[0][1][0], env, lines)
+            if t != "u8":
+                raise Unsupported("`String::from_utf8(vec![x])` with x of type %s" % t, pos)
+            return "Rs.fromUtf8One %s" % atom(c), "Option<String>"
+        return Tr.call(self, e, env, lines)
+
+    def struct_lit(self, e, env, lines):
+        """fields the spec skips (`inner`) must be initialised by the pinned expression (`pinned_fields`) and are dropped"""
+        name = e[1][-1]
+        skip = self.unit.get("decls", {}).get(name, {}).get("skip", [])
+        pinned = self.f.get("pinned_fields", {})
+        keep = []
+        for fl, v in e[2]:
+            if fl in skip:
+                if fl not in pinned or ast_sig(v) != pinned[fl]:
+                    raise Unsupported("initialiser of the field `%s` (the translation spec pins it: %s; found %s)"
+                                      % (fl, pinned.get(fl), ast_sig(v)), e[3])
+                continue
+            keep.append((fl, v))
+        return Tr.struct_lit(self, (e[0], e[1], keep, e[3]), env, lines)
 
     def ser_component(self, c, t, pos):
         if t in STR_TYS:
@@ -250,6 +517,25 @@ class GffTr(Tr):
                 if ab not in self.used_abs:
                     self.used_abs.append(ab)
             return "serialize %s (Rs.csvFields [%s])" % (atom(c), ", ".join(parts)), "csv::Result<()>"
+        if m == "map_err" and len(args) == 1 and args[0][0] == "closure" and self.f.get("result"):
+            return self.expr(recv, env, lines)          # errors are erased (`Except Unit`)
+        if m == "split" and len(args) == 1:
+            c, t = self.expr(recv, env, lines)
+            x, tx = self.expr(args[0], env, lines)
+            if t not in STR_TYS or tx != "char":
+                raise Unsupported("`.split(..)` on %s with a pattern of type %s" % (t, tx), pos)
+            return "Rs.splitChar %s %s" % (atom(x), atom(c)), "[str]"
+        if m == "trim_matches" and len(args) == 1:
+            c, t = self.expr(recv, env, lines)
+            a0 = args[0]
+            if t not in STR_TYS or a0[0] != "num" or a0[2] != "char" or a0[1] >= 128:
+                raise Unsupported("`.trim_matches(..)` (only on a string, with an ASCII char literal)", pos)
+            return "Rs.trimByte %d %s" % (a0[1], atom(c)), "str"
+        if m == "into" and not args:
+            c, t = self.expr(recv, env, lines)
+            if t not in INT_W:
+                raise Unsupported("`.into()` on a value of type %s" % t, pos)
+            return c, t
         if any(a[0] == "closure" for a in args) or m == "map":
             return Tr.mcall(self, e, env, lines)
         if m in ("is_empty", "iter_all", "to_string", "join", "as_str"):
@@ -283,7 +569,7 @@ class GffTr(Tr):
 
     def translate(self, body, start):
         f = self.f
-        toks = apply_rewrites(tokenize(body, start), self.unit.get("rewrites", []) + f.get("rewrites", []))
+        toks = apply_rewrites(gff_tokenize(body, start), self.unit.get("rewrites", []) + f.get("rewrites", []))
         p = GffPX(toks)
         b = p.block_body("<eof>")
         if p.peek().kind != "eof":
@@ -296,8 +582,10 @@ class GffTr(Tr):
         for n, t in f.get("params", []):
             env[n] = t
         self.mode_monadic = True
+        self._probing = True
         self.block(b, env, None)
-        mon = self.monadic or f.get("force_monadic", False)
+        self._probing = False
+        mon = self.monadic or f.get("force_monadic", False) or bool(f.get("result"))
         self.ntemp, self.used_abs = 0, []
         self.mode_monadic = mon
         lines, code, t = self.block(b, env, None)
@@ -317,7 +605,10 @@ class GffTr(Tr):
         for n, t2 in f.get("params", []):
             ps.append("(%s : %s)" % (lname(n), self.lean_ty(t2)))
         ret = self.lean_ty(f["ret"])
-        if mon:
+        if f.get("result"):
+            head = "def %s %s : Except Unit %s := do" % (f["lean"], " ".join(ps), atom_ty(ret))
+            text = head + "\n" + "".join("  " + l + "\n" for l in lines) + "  pure %s" % atom(code)
+        elif mon:
             head = "def %s %s : Res %s := do" % (f["lean"], " ".join(ps), atom_ty(ret))
             text = head + "\n" + "".join("  " + l + "\n" for l in lines) + "  pure %s" % atom(code)
         else:
@@ -333,6 +624,33 @@ class _NoAttrs:
     def __init__(self, src):
         self.code = re.sub(r"#\[[^\]\n]*\]", lambda m: " " * len(m.group(0)), src.code)
         self.line_of = src.line_of
+
+
+def mutated_locals(block):
+    """names of the local variables the statements of a block update (`x.insert(..)`, nested `for`)"""
+    out = []
+    for st in block[1]:
+        if st[0] == "insert":
+            out.append(st[1][1][0])
+        elif st[0] == "for":
+            out.extend(mutated_locals(st[2]))
+        elif st[0] in ("assign", "push", "permute", "ifstmt"):
+            out.append("<%s>" % st[0])
+    return out
+
+
+def ast_sig(e):
+    """canonical text of a call chain (positions dropped): how the spec pins an initialiser it does not translate"""
+    k = e[0]
+    if k == "num":
+        return str(e[1])
+    if k == "path":
+        return "::".join(e[1])
+    if k == "call":
+        return "::".join(e[1]) + "(" + ", ".join(ast_sig(a) for a in e[2]) + ")"
+    if k == "mcall":
+        return ast_sig(e[1]) + "." + e[2] + "(" + ", ".join(ast_sig(a) for a in e[3]) + ")"
+    return "?"
 
 
 def translate_unit(src, unit, fail):
@@ -403,7 +721,8 @@ def unit(**kw):
     return kw
 
 
-ABSTRACT = [("serialize", "ω → List (List Nat) → ρ"), ("dec", "Nat → List Nat")]
+ABSTRACT = [("serialize", "ω → List (List Nat) → ρ"), ("dec", "Nat → List Nat"),
+            ("permGroups", "List (List Nat × List (List Nat)) → List (List Nat × List (List Nat))")]
 CSV_W = "csv::Writer<W>"
 
 unit(name="SrcBed", file="src/io/bed.rs", props="property C13", variables=["ω", "ρ"],
@@ -441,6 +760,10 @@ unit(name="SrcBed", file="src/io/bed.rs", props="property C13", variables=["ω",
               self_ty="Record", params=[("end", "u64")], ret="Record", mut_self=True, theorem="setters_eq_model"),
          dict(name="push_aux", lean="pushAux", within="impl Record", header="pub fn push_aux(&mut self, field: &str)",
               self_ty="Record", params=[("field", "str")], ret="Record", mut_self=True, theorem="setters_eq_model"),
+         dict(name="set_name", lean="setName", within="impl Record", header="pub fn set_name(&mut self, name: &str)",
+              self_ty="Record", params=[("name", "str")], ret="Record", mut_self=True, force_monadic=True, theorem="setName_eq_model"),
+         dict(name="set_score", lean="setScore", within="impl Record", header="pub fn set_score(&mut self, score: &str)",
+              self_ty="Record", params=[("score", "str")], ret="Record", mut_self=True, force_monadic=True, theorem="setScore_eq_model"),
      ])
 
 unit(name="SrcGff", file="src/io/gff.rs", props="property C13", variables=["ω", "ρ"],
@@ -449,12 +772,44 @@ unit(name="SrcGff", file="src/io/gff.rs", props="property C13", variables=["ω",
      decls={"GffType": dict(kind="enum", head="pub enum GffType", lean="GffType"),
             "Writer": dict(kind="struct", head="pub struct Writer<W: io::Write>", lean="Writer", skip=["inner"]),
             "Record": dict(kind="struct", head="pub struct Record", lean="Record")},
+     methods={"GffType.separator": dict(lean="separator", ret="(u8, u8, u8)")},
      functions=[
          dict(name="separator", lean="separator", within="impl GffType", header="fn separator(self) -> (u8, u8, u8)",
               self_ty="GffType", params=[], ret="(u8, u8, u8)", theorem="separator_eq_model"),
          dict(name="write", lean="write", within="impl<W: io::Write> Writer<W>",
               header="pub fn write(&mut self, record: &Record) -> csv::Result<()>", self_ty="Writer", inner=CSV_W,
-              params=[("record", "Record")], ret="csv::Result<()>", abs=["serialize", "dec"], theorem="write_eq_model"),
+              params=[("record", "Record")], ret="csv::Result<()>", abs=["serialize", "dec", "permGroups"], theorem="write_eq_model"),
+         dict(name="new", lean="writerNew", within="impl<W: io::Write> Writer<W>",
+              header="pub fn new(writer: W, fileformat: GffType) -> Self",
+              params=[("fileformat", "GffType")], ret="Writer", force_monadic=True, theorem="writerNew_eq_model",
+              pinned_fields={"inner": "csv::WriterBuilder::new().delimiter(9).flexible(true).from_writer(writer)"}),
+     ])
+
+COLS = [("seqname", "String"), ("source", "String"), ("feature_type", "String"), ("start", "u64"), ("end", "u64"),
+        ("score", "String"), ("strand", "String"), ("phase", "Phase"), ("raw_attributes", "String")]
+
+unit(name="SrcGffRead", file="src/io/gff.rs", props="property C13",
+     # the reader's MultiMap is read as its insertion sequence of (key, value) pairs (`insert` appends)
+     types={"Phase": "Option Nat", "Option<u8>": "Option Nat", MULTIMAP: "List (List Nat × List Nat)", "Regex": "Unit",
+            "Captures": "(List Nat × List Nat)"},
+     abstract=[("captures", "List Nat → List (List Nat × List Nat)")],
+     decls={"Records": dict(kind="struct", head="pub struct Records<'a, R: io::Read>", lean="Records", skip=["inner"]),
+            "Record": dict(kind="struct", head="pub struct Record", lean="Record")},
+     methods={".captures_iter": dict(lean="captures", recv=False, ret="[Captures]")},
+     calls={"Self::validate": dict(lean="validate", ret="Option<u8>")},
+     functions=[
+         # the closure of `Records::next` that builds the record from the nine deserialised columns (pinned by its parameter list)
+         dict(name="next (record closure)", key="next_closure", lean="recordOfColumns",
+              within="impl<'a, R: io::Read> Iterator for Records<'a, R>",
+              header="|( seqname, source, feature_type, start, end, score, strand, phase, raw_attributes, )|",
+              self_ty="Records", params=COLS, ret="Record", abs=["captures"], theorem="recordOfColumns_eq_model"),
+         dict(name="validate", lean="validate", within="impl Phase", header="fn validate<T: Into<u8>>(p: T) -> Option<u8>",
+              params=[("p", "u8")], ret="Option<u8>", theorem="validate_eq_model"),
+         dict(name="deserialize", lean="phaseDeserialize", within="impl<'de> Deserialize<'de> for Phase",
+              header="fn deserialize<D>(deserializer: D) -> Result<Self, D::Error> where D: Deserializer<'de>,",
+              params=[("field", "String")], ret="Phase", result=True, theorem="phaseDeserialize_refines_model",
+              # trusted reading: `String::deserialize(deserializer)?` hands the csv column over as a string
+              rewrites=[("String::deserialize(deserializer)?", "field")]),
      ])
 
 
@@ -493,13 +848,61 @@ impl Record {
         self.tags.push(name.to_owned());
     }
 }
+impl Record {
+    pub fn set_tag(&mut self, tag: &str) {
+        if self.tags.is_empty() {
+            self.tags.push(tag.to_owned());
+        } else {
+            self.tags[0] = tag.to_owned();
+        }
+    }
+    fn small(p: u8) -> Option<u8> {
+        if p < 3 {
+            Some(p)
+        } else {
+            None
+        }
+    }
+    fn parse(field: String) -> Result<Option<u8>, String> {
+        let s = field;
+        match s.as_str() {
+            "." => Ok(None),
+            _ => {
+                let p = u8::from_str(&s).map_err(|_| "bad")?;
+                match Self::small(p) {
+                    Some(p) => Ok(Some(p)),
+                    None => Err("big"),
+                }
+            }
+        }
+    }
+    fn pairs(&self, raw: String) -> Vec<String> {
+        let trim = |s: &str| s.trim_matches('\'').trim_matches('"').to_owned();
+        let mut out = MultiMap::new();
+        for caps in self.re.captures_iter(&raw) {
+            for value in caps["value"].split(',') {
+                out.insert(trim(&caps["key"]), trim(value));
+            }
+        }
+        out
+    }
+}
 impl<W: io::Write> Writer<W> {
+    pub fn make(writer: W, t: u8) -> Self {
+        Writer {
+            inner: csv::WriterBuilder::new().delimiter(b'\t').from_writer(writer),
+            sep: t as char,
+            term: String::from_utf8(vec![t]).unwrap(),
+            vd: t,
+        }
+    }
     pub fn write(&mut self, record: &Record) -> csv::Result<()> {
         let attributes = if !record.attributes.is_empty() {
             let vd = (self.vd as char).to_string();
-            record
-                .attributes
-                .iter_all()
+            let mut entries: Vec<(&String, &Vec<String>)> = record.attributes.iter_all().collect();
+            entries.sort_unstable_by(|x, y| x.0.cmp(y.0));
+            entries
+                .into_iter()
                 .map(|(a, values)| format!("{}{}{}", a, self.sep, values.iter().join(&vd)))
                 .join(&self.term)
         } else {
@@ -512,11 +915,14 @@ impl<W: io::Write> Writer<W> {
 
 SELFTEST_UNIT = dict(
     name="SelfGff", file="selftest.rs", props="self-test", variables=["ω", "ρ"],
-    types={CSV_W: "ω", "csv::Result<()>": "ρ", "Option<str>": "Option (List Nat)", "Option<u64>": "Option Nat"},
-    abstract=ABSTRACT,
+    types={CSV_W: "ω", "csv::Result<()>": "ρ", "Option<str>": "Option (List Nat)", "Option<u64>": "Option Nat",
+           "Option<u8>": "Option Nat", "Captures": "(List Nat × List Nat)", "PairMap": "List (List Nat × List Nat)"},
+    abstract=ABSTRACT + [("captures", "List Nat → List (List Nat × List Nat)")],
     decls={"Writer": dict(kind="struct", head="pub struct Writer<W: io::Write>", lean="Writer", skip=["inner"]),
            "Record": dict(kind="struct", head="pub struct Record", lean="Record")},
-    methods={"Record.tag": dict(lean="tag", monadic=True, ret="Option<str>")},
+    methods={"Record.tag": dict(lean="tag", monadic=True, ret="Option<str>"),
+             ".captures_iter": dict(lean="captures", recv=False, ret="[Captures]")},
+    calls={"Self::small": dict(lean="small", ret="Option<u8>")},
     functions=[
         dict(name="tag", lean="tag", header="pub fn tag(&self, i: usize) -> Option<&str>", self_ty="Record",
              params=[("i", "usize")], ret="Option<str>"),
@@ -524,7 +930,14 @@ SELFTEST_UNIT = dict(
         dict(name="set_name", lean="setName", header="pub fn set_name(&mut self, name: &str)", self_ty="Record",
              params=[("name", "str")], ret="Record", mut_self=True),
         dict(name="write", lean="write", header="pub fn write(&mut self, record: &Record) -> csv::Result<()>", self_ty="Writer",
-             inner=CSV_W, params=[("record", "Record")], ret="csv::Result<()>", abs=["serialize", "dec"]),
+             inner=CSV_W, params=[("record", "Record")], ret="csv::Result<()>", abs=["serialize", "dec", "permGroups"]),
+        dict(name="set_tag", lean="setTag", header="pub fn set_tag(&mut self, tag: &str)", self_ty="Record",
+             params=[("tag", "str")], ret="Record", mut_self=True, force_monadic=True),
+        dict(name="small", lean="small", header="fn small(p: u8) -> Option<u8>", params=[("p", "u8")], ret="Option<u8>"),
+        dict(name="parse", lean="parse", header="fn parse(field: String) -> Result<Option<u8>, String>", params=[("field", "String")],
+             ret="Option<u8>", result=True),
+        dict(name="make", lean="make", header="pub fn make(writer: W, t: u8) -> Self", params=[("t", "u8")], ret="Writer",
+             force_monadic=True, pinned_fields={"inner": "csv::WriterBuilder::new().delimiter(9).from_writer(writer)"}),
     ])
 
 # (edit of the self-test text, reason it must be refused with)
@@ -537,6 +950,10 @@ SELFTEST_REFUSED = [
     (("self.inner.serialize((&record.name,", "self.inner.write_record((&record.name,"), "write_record"),
     (("attributes))", "record.tags.is_empty(), attributes))"), "serialisation"),
     (("self.tags.push(name.to_owned());", "self.tags.clear();"), "expression statement"),
+    (("entries.sort_unstable_by(|x, y| x.0.cmp(y.0));", "entries.reverse();"), "expression statement"),
+    ((".delimiter(b'\\t').from_writer(writer)", ".delimiter(b',').from_writer(writer)"), "pins it"),
+    (('let p = u8::from_str(&s).map_err(|_| "bad")?;', 'let p = u8::from_str(&s).unwrap();'), "can panic"),
+    (("self.tags[0] = tag.to_owned();", "self.tags[0] += 1;"), "compound assignment"),
     (('"-".to_owned()', 'return Ok(())'), "return"),
 ]
 
@@ -549,10 +966,20 @@ example : tag r0 1 = .ok (some [43]) := by decide
 example : tag r0 0 = .panic := by decide
 example : plus r0 = .ok (some 1) := by decide
 example : (setName r0 [97]).tags = [[43], [120], [97]] := by decide
-example : write ser dec1 [] { sep := 61, term := [59], vd := 44 } r0
+example : write ser dec1 id [] { sep := 61, term := [59], vd := 44 } r0
     = [[[110], [55], [43], [120], [107, 61, 1, 44, 2, 59, 108, 61, 3]]] := by decide
-example : write ser dec1 [] { sep := 61, term := [59], vd := 44 } { r0 with attributes := [] }
+example : write ser dec1 List.reverse [] { sep := 61, term := [59], vd := 44 } r0
+    = [[[110], [55], [43], [120], [108, 61, 3, 59, 107, 61, 1, 44, 2]]] := by decide
+example : write ser dec1 id [] { sep := 61, term := [59], vd := 44 } { r0 with attributes := [] }
     = [[[110], [55], [43], [120], [45]]] := by decide
+example : setTag r0 [97] = .ok { r0 with tags := [[97], [120]] } := by decide
+example : (setTag { r0 with tags := [] } [97]) = .ok { r0 with tags := [[97]] } := by decide
+example : parse [46] = .ok none := rfl
+example : parse [50] = .ok (some 2) := rfl
+example : parse [55] = .error () := rfl
+example : parse [43, 49] = .ok (some 1) := rfl
+example : make 59 = .ok { sep := 59, term := [59], vd := 59 } := by decide
+example : make 200 = .panic := by decide
 example : Rs.charStr 233 = [195, 169] := by decide
 """
 
@@ -586,7 +1013,7 @@ def selftest(with_lean):
         if p.returncode != 0:
             print(p.stdout)
             raise SystemExit("rs2lean_gengff selftest: lean failed")
-        print("rs2lean_gengff selftest: generated Lean compiles, 7 evaluations agree")
+        print("rs2lean_gengff selftest: generated Lean compiles, 16 evaluations agree")
 
 
 def main():
